@@ -1503,6 +1503,26 @@ def literal_iterables(fn):
             for i, e in enumerate(list(st.value.elts)):
                 if Unroll._item_ok(e):
                     continue
+                if isinstance(e, (ast.Tuple, ast.List)) and all(
+                        isinstance(x, (ast.Name, ast.Constant,
+                                       ast.Attribute))
+                        for x in e.elts if Unroll._item_ok(x)) and not any(
+                        isinstance(x, ast.Starred) for x in e.elts):
+                    # a row: its computed fields are evaluated here, the
+                    # plain ones stay in the row
+                    for j, x in enumerate(list(e.elts)):
+                        if Unroll._item_ok(x):
+                            continue
+                        tmp = f"{name}__{i}_{j}"
+                        while tmp in taken:
+                            tmp += "_"
+                        taken.add(tmp)
+                        pre.append(ast.copy_location(ast.Assign(
+                            targets=[ast.Name(id=tmp, ctx=ast.Store())],
+                            value=x), st))
+                        e.elts[j] = ast.copy_location(
+                            ast.Name(id=tmp, ctx=ast.Load()), x)
+                    continue
                 tmp = f"{name}__{i}"
                 while tmp in taken:
                     tmp += "_"
@@ -2820,7 +2840,23 @@ def class_constants(tree):
         if not isinstance(cls, ast.ClassDef):
             continue
         consts = {}
+        subclassed = any(isinstance(c2, ast.ClassDef) and any(
+            norm(b) == cls.name for b in c2.bases) for c2 in tree.body)
         for st in cls.body:
+            # a number/string bound once in the class body (no subclass
+            # in this module could override it)
+            if isinstance(st, ast.Assign) and len(st.targets) == 1 and \
+                    isinstance(st.targets[0], ast.Name) and not subclassed \
+                    and st.targets[0].id.isupper() and (isinstance(
+                        st.value, ast.Constant) and isinstance(
+                        st.value.value, (int, float, str))
+                        or _closed_number(st.value) is not None) and sum(
+                        1 for s_ in cls.body for n in ast.walk(s_)
+                        if isinstance(n, ast.Name) and isinstance(
+                            n.ctx, ast.Store)
+                        and n.id == st.targets[0].id) == 1:
+                consts[st.targets[0].id] = st.value
+                continue
             if isinstance(st, ast.Assign) and len(st.targets) == 1 and \
                     isinstance(st.targets[0], ast.Name) and (
                         st.targets[0].id.startswith("_") or isinstance(
@@ -6332,4 +6368,69 @@ def fuse_collect_loops(fn):
                 ast.fix_missing_locations(b)
                 done = True
                 i = max(0, i - 1)
+    return done
+
+
+def sentinel_branches(tree):
+    """`if c: v = E else: v = SENTINEL` directly followed by
+    `if v is SENTINEL: B [else: O]` (SENTINEL a module-level `object()`)
+    -> `if c: v = E; O else: v = SENTINEL; B`"""
+    sent = set()
+    for st in tree.body:
+        if isinstance(st, ast.Assign) and len(st.targets) == 1 and \
+                isinstance(st.targets[0], ast.Name) and isinstance(
+                    st.value, ast.Call) and norm(st.value.func) == "object" \
+                and not st.value.args:
+            sent.add(st.targets[0].id)
+    if not sent:
+        return False
+    done = False
+    for fn in [n for n in ast.walk(tree) if isinstance(n, ast.FunctionDef)]:
+        for par in [fn] + list(_walk_own(fn)):
+            for fld in ("body", "orelse", "finalbody"):
+                blk = getattr(par, fld, None)
+                if not isinstance(blk, list):
+                    continue
+                i = 0
+                while i + 1 < len(blk):
+                    a, b = blk[i], blk[i + 1]
+                    i += 1
+                    if not (isinstance(a, ast.If) and len(a.body) >= 1
+                            and len(a.orelse) == 1 and isinstance(
+                                b, ast.If)):
+                        continue
+                    la, lo = a.body[-1], a.orelse[0]
+
+                    def asg(s_):
+                        return isinstance(s_, ast.Assign) and len(
+                            s_.targets) == 1 and isinstance(
+                            s_.targets[0], ast.Name)
+                    if not (asg(la) and asg(lo) and la.targets[0].id ==
+                            lo.targets[0].id):
+                        continue
+                    v = la.targets[0].id
+                    # which arm holds the sentinel
+                    if isinstance(lo.value, ast.Name) and \
+                            lo.value.id in sent and not (isinstance(
+                                la.value, ast.Name)
+                                and la.value.id in sent):
+                        s_arm, S = "orelse", lo.value.id
+                    else:
+                        continue
+                    t = b.test
+                    if not (isinstance(t, ast.Compare) and len(t.ops) == 1
+                            and isinstance(t.ops[0], (ast.Is, ast.IsNot))
+                            and isinstance(t.left, ast.Name)
+                            and t.left.id == v and isinstance(
+                                t.comparators[0], ast.Name)
+                            and t.comparators[0].id == S):
+                        continue
+                    if_sent, if_val = (b.body, b.orelse) if isinstance(
+                        t.ops[0], ast.Is) else (b.orelse, b.body)
+                    a.body = a.body + list(if_val)
+                    a.orelse = a.orelse + list(if_sent)
+                    del blk[i]
+                    ast.fix_missing_locations(a)
+                    done = True
+                    i -= 1
     return done
